@@ -264,6 +264,10 @@ pub fn run_driver() -> Result<(), Box<dyn std::error::Error>> {
                     rest.parse::<usize>().unwrap_or(0)
                 };
                 BUDGET.with(|b| b.set(Some(n)));
+                // a pending archive extraction is over before the tick polls it (deterministic steps)
+                if let Some(pe) = fc.as_ref().and_then(|fc| fc.pending_extract.as_ref()) {
+                    pe.verif_wait_finished(30_000);
+                }
                 let r = std::panic::catch_unwind(std::panic::AssertUnwindSafe(|| {
                     if let Some(fc) = &mut fc {
                         let _ = process_file_context(&log, fc, &mut ws);
